@@ -10,7 +10,7 @@
                             GetValidatorBreakdown (staking side = the `stk` table, see below)
     keeper/hooks_staking.go afterDelegationModified, beforeDelegationRemoved, processHook
     keeper/endorsements.go  UpdateTotalSharesWithDistribution, Claim, EstimateClaim
-    keeper/hook_epoch.go    EpochHooks.AfterEpochEnd (fires for EVERY epoch identifier)
+    keeper/hook_epoch.go    EpochHooks.AfterEpochEnd (only on x/incentives' DistrEpochIdentifier)
     keeper/helpers.go       CanClaim, BlacklistClaim, RefreshClaimBlacklist, Save/Delete…
     x/incentives/keeper/gauge_endorsement.go  updateEndorsementGaugeOnEpochEnd,
                             DistributeEndorsementRewards; hooks.go / distribute.go: AfterEpochEnd on
@@ -246,12 +246,14 @@ def State.revoke (s : State) (a : Nat) : Except Err State :=
 
 /-! ### keeper/hooks_staking.go -/
 
-/-- `processHook` -/
+/-- `processHook`: below the minimum the vote is revoked; otherwise the voter's contribution is
+    replaced exactly — the distribution of the old power is subtracted, the distribution of the new
+    power is added (distribution and endorsement shares) -/
 def State.processHook (s : State) (a val : Nat) (v : Vote) (oldVP newVP : Int) : State :=
   let diff := newVP - oldVP
   let newTotal := v.vp + diff
   if newTotal < s.minVP then s.revokeVote a v else
-  let s1 := s.applyUpdate (applyWeights diff v.weights)
+  let s1 := (s.applyUpdate v.toDist.negate).applyUpdate (Vote.toDist ⟨newTotal, v.weights⟩)
   { s1 with votes := aset a ⟨newTotal, v.weights⟩ s1.votes,
             dvp := if newVP = 0 then aerase (a, val) s1.dvp else aset (a, val) newVP s1.dvp }
 
@@ -338,7 +340,8 @@ def State.claim (s : State) (a : Nat) (gid : Nat) : Except Err (State × Int) :=
 
 /-! ### epoch end -/
 
-/-- sponsorship `AfterEpochEnd` — identifier ignored: snapshot shares, clear the blacklist -/
+/-- sponsorship `AfterEpochEnd` (acts on the x/incentives distribution identifier only): snapshot
+    shares, clear the blacklist -/
 def State.sponsEpochEnd (s : State) : State :=
   { s with endorsements := s.endorsements.map (fun e => { e with epoch := e.total }), blacklist := [] }
 
@@ -368,9 +371,9 @@ def State.incentivesEpochEnd (s : State) : State :=
   { s with gauges := upd }
 
 /-- end of one epoch of some identifier; `distr` = it is the incentives distribution identifier.
-    Hook order: …, incentives, …, sponsorship (app/keepers.go). -/
+    Hook order: …, incentives, …, sponsorship (app/keepers.go); both act on that identifier only. -/
 def State.epochEnd (s : State) (distr : Bool) : State :=
-  (if distr then s.incentivesEpochEnd else s).sponsEpochEnd
+  if distr then s.incentivesEpochEnd.sponsEpochEnd else s
 
 def State.funded (s : State) (g : Gauge) (amt : Int) : State :=
   { s with gauges := updGauge s.gauges { g with coins := g.coins + amt }, incBal := s.incBal + amt }
